@@ -83,6 +83,8 @@ class Ctx:
         err = float(np.linalg.norm((got - want).ravel()))
         self.metric_max("max_rel_err:" + signature.split("|")[0], err / scale)
         if err > tol * scale:
+            if got.size <= 4:
+                detail = dict(detail, got=got, want=want)
             self.violate(signature, err=err, scale=scale, tol=tol, **detail)
             return False
         return True
